@@ -471,8 +471,32 @@ def kb_audit():
     return out
 
 
+def equivalent_corpus(prop, repo_root):
+    """committed behaviour-preserving patches (/verif/equivalent): every check must stay silent on them"""
+    res = []
+    ed = os.path.join(VERIF, "equivalent")
+    if not os.path.isdir(ed):
+        return res
+    for sid in sorted(os.listdir(ed)):
+        d = os.path.join(ed, sid)
+        if not os.path.exists(os.path.join(d, "patch.diff")):
+            continue
+        tmp = tempfile.mkdtemp(prefix="sa_equiv_%s_" % sid)
+        try:
+            shutil.copytree(os.path.join(repo_root, "npstructures"), os.path.join(tmp, "npstructures"), ignore=shutil.ignore_patterns("__pycache__"))
+            p = subprocess.run(["patch", "-p1", "-s", "-i", os.path.join(d, "patch.diff")], cwd=tmp, capture_output=True, text=True)
+            if p.returncode != 0:
+                res.append({"variant": "equivalent:" + sid, "rc": None, "error": "patch does not apply to the current tree"})
+                continue
+            rc, viol, head, err = run_check(prop, tmp, os.path.join(tmp, "ev"))
+            res.append({"variant": "equivalent:" + sid, "rc": rc, "violations": viol[:3], "summary": head[:160], "error": err})
+        finally:
+            shutil.rmtree(tmp, ignore_errors=True)
+    return res
+
+
 def run(prop, repo_root):
-    silent = silent_corpus(prop, repo_root)
+    silent = silent_corpus(prop, repo_root) + equivalent_corpus(prop, repo_root)
     fire = fire_corpus(prop, repo_root)
     kb = kb_audit()
     bad_silent = [r for r in silent if r.get("rc") == 1]
